@@ -7,7 +7,7 @@ CONSTANTS MaxLen, MaxDecl, HeaderNames
 Marker(i) == (i * 7 + 3) % 251
 \* header bytes: enumerated fields hold defined values (type 1 / arch 0 / flags 0)
 HeaderBytes(H, declared) ==
-  CASE H.name = "bi"    -> U32Bytes(declared) \o <<0, 0, 0, 0>>
+  CASE H.name = "bi"    -> U32Bytes(declared) \o <<165, 90, 60, 195>>       \* a reserved word a boot loader left dirty
     [] H.name = "tag"   -> <<1, 0, 0, 0>> \o U32Bytes(declared)
     [] H.name = "mb"    -> <<214, 80, 82, 232>> \o <<0, 0, 0, 0>> \o U32Bytes(declared) \o <<0, 0, 0, 0>>
     [] H.name = "htag"  -> <<1, 0, 0, 0>> \o U32Bytes(declared)
